@@ -180,4 +180,27 @@ theorem applyRec_frame (c : Cfg) (p : Idx) (pos : Pos) (h : Hdr) (init : Bool) :
                 exact ⟨[n1], by simp, hn1⟩
             · exact ⟨[], by simp, SameOutside.refl _ _⟩
 
+/-- the index has cached an absolute root (the state of every instance after `Initialize` on an
+    absolute root proposal) -/
+def AbsRoot (p : Idx) : Prop := hasPrefix p.root [slash] = true
+
+theorem sanitize_abs (p : Idx) (n : Name) (hr : AbsRoot p) (hn : hasPrefix n [slash] = true) :
+    (p.sanitize n).1 = p ∧ ((p.sanitize n).2 = n ∨ (p.sanitize n).2 = p.root) := by
+  unfold AbsRoot at hr
+  have hne : (p.root == []) = false := by
+    cases h : p.root with
+    | nil => rw [h] at hr; simp [hasPrefix] at hr
+    | cons _ _ => rfl
+  unfold Idx.sanitize
+  split
+  · exact ⟨rfl, Or.inr rfl⟩
+  · simp [hne, hr, hn]
+
+theorem deleteHeader_root (p : Idx) (n : Name) (a b : Int) (hr : AbsRoot p) (hn : hasPrefix n [slash] = true) :
+    (p.deleteHeader n a b).1.root = p.root := by
+  unfold Idx.deleteHeader
+  simp only
+  have := (sanitize_abs p n hr hn).1
+  split <;> simp [this]
+
 end Stfs
